@@ -8,7 +8,7 @@ operators, and `Theorems/C01.lean` shows that each mirror returns `some` of what
 (release-profile) model of C03 / C03x / C04 computes — for every block / encoded pixel.
 
 What panics in Rust (and only that is `none` here):
-* `+ - *` on an integer type whose ideal result leaves the type (`ck`, `ckSub`, `ckI32`, `negI32`);
+* `+ - *` on an integer type whose ideal result leaves the type (`ck`, `subU`, `ckI32`, `negI32`);
 * `<<` / `>>` with a shift amount ≥ the bit width of the LEFT operand (`shl`, `shr`, `shlI32`, `sarI32`);
   bits shifted out are lost silently, as in Rust (no trap);
 * `/` by zero (`div`);
@@ -22,7 +22,7 @@ namespace Dds.Trap
 /-- result `x` of a plain `+` / `*` on an unsigned type with `bound = 2^bits` values -/
 def ck (bound x : Nat) : Option Nat := if x < bound then some x else none
 /-- plain `a - b` on an unsigned type -/
-def ckSub (a b : Nat) : Option Nat := if b ≤ a then some (a - b) else none
+def subU (a b : Nat) : Option Nat := if b ≤ a then some (a - b) else none
 /-- `x << s` on an unsigned type of `width` bits (`bound = 2^width`): traps iff `s ≥ width` -/
 def shl (width bound x s : Nat) : Option Nat := if s < width then some ((x <<< s) % bound) else none
 /-- `x >> s` on an unsigned type of `width` bits: traps iff `s ≥ width` -/
@@ -56,7 +56,7 @@ def ckI16 (x : Int) : Option Int := if -32768 ≤ x ∧ x ≤ 32767 then some x 
 def ckI8 (x : Int) : Option Int := if -128 ≤ x ∧ x ≤ 127 then some x else none
 
 theorem ck_of_lt {bound x : Nat} (h : x < bound) : ck bound x = some x := if_pos h
-theorem ckSub_of_le {a b : Nat} (h : b ≤ a) : ckSub a b = some (a - b) := if_pos h
+theorem subU_of_le {a b : Nat} (h : b ≤ a) : subU a b = some (a - b) := if_pos h
 theorem shl_of_lt {width bound x s : Nat} (h : s < width) : shl width bound x s = some ((x <<< s) % bound) :=
   if_pos h
 theorem shr_of_lt {width x s : Nat} (h : s < width) : shr width x s = some (x >>> s) := if_pos h
@@ -90,13 +90,13 @@ theorem pure_some' {α} (a : α) : (pure a : Option α) = some a := Eq.trans rfl
 
 /-- unfold the Option monad of a mirror and discharge every trap condition by `omega` -/
 macro "trap_simp" "[" ls:Lean.Parser.Tactic.simpLemma,* "]" : tactic =>
-  `(tactic| simp (disch := omega) only [$ls,*, Dds.Trap.ck_of_lt, Dds.Trap.ckSub_of_le, Dds.Trap.shr_of_lt,
+  `(tactic| simp (disch := omega) only [$ls,*, Dds.Trap.ck_of_lt, Dds.Trap.subU_of_le, Dds.Trap.shr_of_lt,
       Dds.Trap.shl_of_lt, Dds.Trap.div_of_ne, Dds.Trap.dbgP_of, Dds.Trap.idxF_of_lt, Dds.Trap.bind_some',
       Dds.Trap.pure_some', Nat.mod_eq_of_lt])
 
 /- The operators are opaque to the elaborator from here on (the unifier would otherwise try to decide
 `x + 32520 < 4294967296` for a variable `x` by unfolding `Nat.ble` 32 520 times); proofs go through the
 `…_of_…` lemmas above, evaluation (`decide +kernel`, the compiled driver) is unaffected. -/
-attribute [irreducible] ck ckSub shl shr div dbg dbgP idxF ckI32 ckI16 ckI8
+attribute [irreducible] ck subU shl shr div dbg dbgP idxF ckI32 ckI16 ckI8
 
 end Dds.Trap
